@@ -41,6 +41,9 @@ def cons_cases(tier):
     precs = ("double",) if tier == "quick" else ("double", "single")
     for p, g, pad, m, pr in itertools.product(profs, grids, pads, modes, precs):
         yield {"prof": p, "grid": g[0], "dom": g[1], "pad": list(pad), "modes": m, "prec": pr}
+    # analytic mode (constant profiles): the same mean laws, the trapezoid rule being exact
+    for pad, m in itertools.product(((0, 0), (2, 1)), ("full", [4, 4])):
+        yield {"prof": "const", "grid": sl.GRIDS[0][0], "dom": sl.GRIDS[0][1], "pad": list(pad), "modes": m, "prec": "double", "analytic": True}
     for k, (g, pad) in enumerate(itertools.product(sl.DEGENERATE_GRIDS, ((0, 0), (2, 1)))):
         yield {"prof": profs[k % len(profs)], "grid": g[0], "dom": g[1], "pad": list(pad), "modes": [64, 64], "prec": "double"}
     # odd sizes: only clamped mode counts are accepted
@@ -83,7 +86,7 @@ def case_conservation(case):
     worst_f = worst_c = 0.0
     for k, (name, q) in enumerate(sources):
         bg = BGS[k % len(BGS)]
-        _, c, f = S(q, z, prof, dom, levels, modes=modes, halo=0.0, srf_bg_conc=bg, precision=prec)
+        _, c, f = S(q, z, prof, dom, levels, modes=modes, halo=0.0, srf_bg_conc=bg, precision=prec, analytic=bool(case.get("analytic")))
         qm = q.mean()
         fm = f.reshape(len(levels), -1).mean(axis=1)
         cm = c.reshape(len(levels), -1).mean(axis=1)
